@@ -436,6 +436,145 @@ pub fn run(tier: Tier) -> i32 {
             ctx.scope_done(name, total as u64, t0, &format!("{} states, {} write edges + finish probes, none may panic", a.0, a.1));
         }
     }
+    // ------------------------------------------------------------------ decoders inside decoders: a source that unpacks an inner layer at
+    // every call (a sink that unpacks something whenever it is written to) on the same thread, as a reader of layered
+    // containers does. Nothing may panic; the outer call answers as it does for a plain source and sink.
+    {
+        let name = "nested-decoders";
+        if ctx.may_start(name) {
+            use std::io::{self, BufRead, Read, Write};
+            let t0 = Instant::now();
+            let prog = vec![Sym::L(0x61), Sym::L(0x62), Sym::L(0x63), Sym::M(2, 5), Sym::S, Sym::L(0x64)];
+            let e = enc::encode(3, 0, 2, u64::MAX, &prog);
+            let f_lzma = enc::lzma_file(3, 0, 2, 4096, Some(e.expect.len() as u64), &e.payload);
+            let w2 = lzma2::write(&[Chunk::U { reset: true, data: b"stored".to_vec() }, Chunk::C { class: 2, props: (3, 0, 2), prog: vec![Sym::M(3, 4), Sym::L(0x21)] }, Chunk::U { reset: false, data: b"xy".to_vec() }]);
+            let f_xz = xz::build(&XzFile { check_id: 1, blocks: vec![xz::Block { payload: w2.bytes.clone(), plain: w2.expect.clone(), ..Default::default() }], ..Default::default() }).0;
+            let mut bad_lzma2 = w2.bytes.clone();
+            bad_lzma2.truncate(bad_lzma2.len() - 3);
+            let files: Vec<(&str, u8, Vec<u8>)> = vec![("lzma", 0, f_lzma.clone()), ("lzma2", 1, w2.bytes.clone()), ("xz", 2, f_xz.clone()), ("truncated lzma2", 1, bad_lzma2)];
+            fn run_dec(kind: u8, r: &mut dyn BufRead, w: &mut dyn Write) -> Result<(), String> {
+                let mut r = r;
+                let mut w = w;
+                match kind {
+                    0 => lzma_rs::lzma_decompress(&mut r, &mut w).map_err(|e| e.to_string()),
+                    1 => lzma_rs::lzma2_decompress(&mut r, &mut w).map_err(|e| e.to_string()),
+                    _ => lzma_rs::xz_decompress(&mut r, &mut w).map_err(|e| e.to_string()),
+                }
+            }
+            struct NRd<'a> {
+                data: &'a [u8],
+                pos: usize,
+                piece: usize,
+                inner: (u8, &'a [u8]),
+                inner_want: (bool, Vec<u8>),
+                inner_ok: bool,
+                nest: bool,
+            }
+            impl<'a> NRd<'a> {
+                fn poke(&mut self) {
+                    if self.nest {
+                        let mut out = Vec::new();
+                        let mut src: &[u8] = self.inner.1;
+                        let r = run_dec(self.inner.0, &mut src, &mut out);
+                        if r.is_ok() != self.inner_want.0 || (r.is_ok() && out != self.inner_want.1) {
+                            self.inner_ok = false;
+                        }
+                    }
+                }
+            }
+            impl<'a> Read for NRd<'a> {
+                fn read(&mut self, b: &mut [u8]) -> io::Result<usize> {
+                    self.poke();
+                    let n = b.len().min(self.piece).min(self.data.len() - self.pos);
+                    b[..n].copy_from_slice(&self.data[self.pos..self.pos + n]);
+                    self.pos += n;
+                    Ok(n)
+                }
+            }
+            impl<'a> BufRead for NRd<'a> {
+                fn fill_buf(&mut self) -> io::Result<&[u8]> {
+                    self.poke();
+                    let n = self.piece.min(self.data.len() - self.pos);
+                    Ok(&self.data[self.pos..self.pos + n])
+                }
+                fn consume(&mut self, n: usize) {
+                    self.pos += n;
+                }
+            }
+            struct NWr<'a> {
+                out: Vec<u8>,
+                inner: (u8, &'a [u8]),
+                inner_want: (bool, Vec<u8>),
+                inner_ok: bool,
+                nest: bool,
+            }
+            impl<'a> Write for NWr<'a> {
+                fn write(&mut self, b: &[u8]) -> io::Result<usize> {
+                    if self.nest {
+                        let mut out = Vec::new();
+                        let mut src: &[u8] = self.inner.1;
+                        let r = run_dec(self.inner.0, &mut src, &mut out);
+                        if r.is_ok() != self.inner_want.0 || (r.is_ok() && out != self.inner_want.1) {
+                            self.inner_ok = false;
+                        }
+                    }
+                    self.out.extend_from_slice(b);
+                    Ok(b.len())
+                }
+                fn flush(&mut self) -> io::Result<()> {
+                    Ok(())
+                }
+            }
+            let mut n = 0u64;
+            for (on, ok_, ofile) in &files {
+                for (inn, ik, ifile) in &files {
+                    let inner_want = {
+                        let mut out = Vec::new();
+                        let mut src: &[u8] = ifile;
+                        let r = run_dec(*ik, &mut src, &mut out);
+                        (r.is_ok(), out)
+                    };
+                    for piece in [1usize, 5, usize::MAX] {
+                        let base = {
+                            let mut rd = NRd { data: ofile, pos: 0, piece, inner: (*ik, ifile), inner_want: inner_want.clone(), inner_ok: true, nest: false };
+                            let mut wr = NWr { out: Vec::new(), inner: (*ik, ifile), inner_want: inner_want.clone(), inner_ok: true, nest: false };
+                            let r = run_dec(*ok_, &mut rd, &mut wr);
+                            (r.is_ok(), wr.out)
+                        };
+                        for side in 0..3u8 {
+                            n += 1;
+                            ctx.eval(1);
+                            ctx.nontriv(1);
+                            crate::cases::IN_GUARD.with(|g| g.set(true));
+                            let res = std::panic::catch_unwind(std::panic::AssertUnwindSafe(|| {
+                                let mut rd = NRd { data: ofile, pos: 0, piece, inner: (*ik, ifile), inner_want: inner_want.clone(), inner_ok: true, nest: side != 1 };
+                                let mut wr = NWr { out: Vec::new(), inner: (*ik, ifile), inner_want: inner_want.clone(), inner_ok: true, nest: side != 0 };
+                                let r = run_dec(*ok_, &mut rd, &mut wr);
+                                (r.is_ok(), wr.out, rd.inner_ok && wr.inner_ok)
+                            }));
+                            crate::cases::IN_GUARD.with(|g| g.set(false));
+                            let problem = match res {
+                                Err(_) => Some("panicked".to_string()),
+                                Ok((ok, out, inner_ok)) => {
+                                    if ok != base.0 || (ok && out != base.1) {
+                                        Some(format!("the outer call answers differently ({}, {} bytes) than for the same source and sink without nested calls ({}, {} bytes)", if ok { "Ok" } else { "Err" }, out.len(), if base.0 { "Ok" } else { "Err" }, base.1.len()))
+                                    } else if !inner_ok {
+                                        Some("an inner call answered differently than it does alone".into())
+                                    } else {
+                                        None
+                                    }
+                                }
+                            };
+                            if let Some(pb) = problem {
+                                ctx.violation_text(&format!("{} decoder on a {}-byte input whose {} run(s) the {} decoder at every call (pieces of {}): {}", on, ofile.len(), ["source", "sink", "source and sink"][side as usize], inn, if piece == usize::MAX { "unlimited size".to_string() } else { format!("{} bytes", piece) }, pb), json!({"outer": on, "inner": inn, "side": side, "piece": piece as u64}));
+                            }
+                        }
+                    }
+                }
+            }
+            ctx.scope_done(name, n, t0, "4 outer x 4 inner inputs (lzma, lzma2, xz, truncated lzma2) x 3 piece sizes, nested through the source, the sink, and both");
+        }
+    }
     // ------------------------------------------------------------------ (6) long inputs: megabytes through windows larger than 1 MiB,
     // blocks far larger than their dictionary, truncations and single substitutions of them (nothing may panic or hang)
     {
